@@ -299,8 +299,11 @@ func main() {
 		res := evalOne(sc, ev, m)
 		record(rep, &res)
 	} else {
-		n := o.Budget(150, 3000)
+		n := o.Budget(150, 2000)
 		workers := 8
+		if o.Thorough() {
+			workers = 12
+		}
 		r := common.NewRng(o.Seed)
 		jobs := make(chan int)
 		results := make([]result, n)
